@@ -159,6 +159,7 @@ class TermGen:
         self.use_let = let
         self.bound = []  # stack of dict name->sort for let-bound variables
         self.letc = 0
+        self.numpool = {}  # sort -> compound numeric terms generated so far (re-used to share subterms across assertions)
 
     # ---- numerals
     def const(self, sort):
@@ -209,6 +210,16 @@ class TermGen:
             if v is None or r < 0.25:
                 return self.const(sort)
             return v
+        pool = self.numpool.setdefault(sort, [])
+        if pool and not self.bound and rnd.random() < 0.16:
+            return rnd.choice(pool)
+        t = self._num(sort, depth)
+        if not self.bound and t.startswith("(") and len(pool) < 12 and len(t) < 120:
+            pool.append(t)
+        return t
+
+    def _num(self, sort, depth):
+        rnd, L = self.rnd, self.L
         ch = [(3, "var"), (1, "const"), (3, "plus"), (2, "minus"), (1, "neg"), (3, "scale"), (1.2, "ite")]
         if self.sig.funs_ret(sort):
             ch.append((2.5, "app"))
@@ -217,7 +228,7 @@ class TermGen:
         if sort == "Real":
             ch.append((0.8, "rdiv"))
         else:
-            ch.append((1.2, "divmod"))
+            ch.append((2.4, "divmod"))
         k = wchoice(rnd, ch)
         if k == "var":
             return self.num(sort, 0)
@@ -439,7 +450,7 @@ def planted(rnd, L, sig, tg):
         if any(f for f in sig.funs if f[1] == [f[2]] and f[2] in usorts):
             kinds += ["congr"]
     if L["arrays"] and tg.array_sorts():
-        kinds += ["row", "ext"]
+        kinds += ["row", "ext", "arrweb", "arrweb"]
     if L["uf"] and nums and not L["dl"]:
         kinds += ["iface"]
     if L["uf"] and nums and any(f for f in sig.funs if len(f[1]) == 1 and f[1][0] in nums):
@@ -517,6 +528,47 @@ def planted(rnd, L, sig, tg):
         e1 = tg.term(e, 0)
         out.append("(%s (select (store %s %s %s) %s) %s)" % (rnd.choice(["distinct", "="]), av, i1, e1, i2, e1))
         out.append("(%s %s %s)" % (rnd.choice(["=", "distinct"]), i1, i2))
+    elif k == "arrweb":
+        # a web of selects/stores over few arrays and indices with index equalities that are not top-level units:
+        # read-over-weak-equivalence reasoning, conflicts and lemmas of the array solver
+        a = rnd.choice(tg.array_sorts())
+        isort, esort = arr_parts(a)
+        arrs = list(sig.vars[a])
+        idx = list(sig.vars.get(isort, []))
+        if len(idx) < 2:
+            idx = idx + [tg.term(isort, 1) for _ in range(2)]
+        els = list(sig.vars.get(esort, [])) or [tg.term(esort, 0)]
+        bs = sig.vars.get("Bool", ["true"])
+
+        def ix():
+            return rnd.choice(idx)
+
+        def ar(d=2):
+            x = rnd.choice(arrs)
+            while d > 0 and rnd.random() < 0.5:
+                x = "(store %s %s %s)" % (x, ix(), rnd.choice(els))
+                d -= 1
+            return x
+        for _ in range(rnd.randint(3, 7)):
+            r = rnd.random()
+            if r < 0.25:
+                i, j = ix(), ix()
+                b = rnd.choice(bs)
+                out.append("(or (= %s %s) %s)" % (i, j, b))
+                if rnd.random() < 0.6:
+                    out.append("(or (= %s %s) (not %s))" % (i, j, b))
+            elif r < 0.4:
+                out.append("(or (= %s %s) (= %s %s))" % (ix(), ix(), ix(), ix()))
+            elif r < 0.5:
+                out.append("(distinct %s %s)" % (ix(), ix()))
+            elif r < 0.7:
+                out.append("(= (select %s %s) %s)" % (ar(1), ix(), rnd.choice(els)))
+            elif r < 0.9:
+                out.append("(not (= (select %s %s) (select %s %s)))" % (ar(), ix(), ar(), ix()))
+            else:
+                if len(arrs) >= 2:
+                    x, y = rnd.sample(arrs, 2)
+                    out.append("(= %s (store %s %s %s))" % (x, y, ix(), rnd.choice(els)))
     elif k == "ext":
         a = rnd.choice(tg.array_sorts())
         i, e = arr_parts(a)
@@ -634,7 +686,7 @@ def opt_get(script, key, default=None):
 # ------------------------------------------------------------------------------------------------
 # scripts
 
-def gen_assertions(rnd, L, sig, tg, depth, n_assert, planted_p=0.55, dense_p=0.22):
+def gen_assertions(rnd, L, sig, tg, depth, n_assert, planted_p=0.55, dense_p=0.22, hard=False):
     """Draw an atom pool and build assertions over it (plus planted shapes)."""
     pool = []
     npool = rnd.randint(3, 10)
@@ -671,6 +723,35 @@ def gen_assertions(rnd, L, sig, tg, depth, n_assert, planted_p=0.55, dense_p=0.2
         # random clauses over a pool of theory atoms (k-SAT over atoms): real search with theory conflicts,
         # propagations and explanations instead of level-0 refutations
         atoms = [tg.atom(rnd.randint(0, 1)) for _ in range(rnd.randint(5, 12))]
+        nsorts = [x for x in ("Int", "Real") if len(sig.vars.get(x, [])) >= 2]
+        if nsorts and rnd.random() < 0.6:
+            # several bounds on the same linear terms: theory propagation between them enters the implication graph
+            srt = rnd.choice(nsorts)
+            vs = sig.vars[srt]
+            lit = (lambda v: int_lit(v)) if srt == "Int" else (lambda v: real_lit(rnd, v))
+            bases = []
+            for _ in range(rnd.randint(2, 5)):
+                x, y = rnd.sample(vs, 2)
+                r = rnd.random()
+                if r < 0.45 or L["dl"]:
+                    bases.append("(- %s %s)" % (x, y))
+                elif r < 0.6:
+                    bases.append(x)
+                else:
+                    z = rnd.choice(vs)
+                    bases.append("(+ (* %s %s) %s (* %s %s))" % (lit(rnd.randint(1, 3)), x, y, lit(rnd.choice([-2, -1, 1, 2])), z))
+            atoms = atoms[:rnd.randint(0, 4)]
+            for _ in range(rnd.randint(6, 12) * (2 if hard else 1)):
+                atoms.append("(%s %s %s)" % (rnd.choice(["<=", "<", ">=", ">"]), rnd.choice(bases), lit(rnd.randint(-4, 4))))
+        elif hard:
+            atoms += [tg.atom(rnd.randint(0, 1)) for _ in range(rnd.randint(4, 10))]
+        if hard:
+            atoms = list(dict.fromkeys(atoms))
+            dense = []
+            for _ in range(int(len(atoms) * (3.6 + rnd.random()))):
+                lits = [a if rnd.random() < 0.5 else "(not %s)" % a for a in rnd.sample(atoms, min(3, len(atoms)))]
+                dense.append("(or %s)" % " ".join(lits))
+            return dense, pool + atoms
         dense = []
         for _ in range(rnd.randint(2 * len(atoms), int(4.5 * len(atoms)))):
             k = 3 if rnd.random() < 0.75 else 2
@@ -725,7 +806,7 @@ def macro_cmds(sig):
 
 def gen_script(rnd, tier="quick", logic_keys=None, tracking=None, engines=True, incremental=None,
                history=True, queries=True, named=0.0, min_checks=1, big=True, allow_nonincr=True, depth=None,
-               max_hist=None, planted_p=0.55, hist_p=0.6, hist_w=(0.42, 0.18, 0.15), dense_p=0.22):
+               max_hist=None, planted_p=0.55, hist_p=0.6, hist_w=(0.42, 0.18, 0.15), dense_p=0.22, hard=False):
     """General-purpose script of the C01 input space."""
     lk = rnd.choice(logic_keys or ALL_LOGIC_KEYS)
     L = LOGICS[lk]
@@ -740,7 +821,7 @@ def gen_script(rnd, tier="quick", logic_keys=None, tracking=None, engines=True, 
         gen_macros(rnd, L, sig, tg)
     cmds = macro_cmds(sig)
     nas = rnd.randint(2, 8 if tier == "quick" else 12)
-    asserts, pool = gen_assertions(rnd, L, sig, tg, depth, nas, planted_p, dense_p)
+    asserts, pool = gen_assertions(rnd, L, sig, tg, depth, nas, planted_p, dense_p, hard)
     namec = [0]
 
     def mk_assert(t):
